@@ -100,6 +100,30 @@ def _on_line(code, line):
     return None
 
 
+RUNAWAY_CALLS = 150000       # bromelia function calls by one thread without reaching a scheduling point
+
+
+class Runaway(BaseException):
+    """Raised inside a library thread that computes forever without reaching a scheduling point."""
+
+
+def _on_call(code, offset):
+    if not code.co_filename.startswith(_PREFIX):
+        return sys.monitoring.DISABLE
+    rt = _RT
+    if rt is None:
+        return None
+    t = rt.me()
+    if t is None:
+        return None
+    t.calls_since_point = getattr(t, "calls_since_point", 0) + 1
+    if t.calls_since_point > RUNAWAY_CALLS and not getattr(t, "runaway", False):
+        t.runaway = True
+        rt.runaways.append(t.name)
+        raise Runaway(f"{t.name} executed {RUNAWAY_CALLS} library calls without reaching a scheduling point")
+    return None
+
+
 def install():
     global _TOOL, _PREFIX
     if _TOOL is not None:
@@ -116,7 +140,8 @@ def install():
     if _TOOL is None:
         raise core.HarnessError("no free sys.monitoring tool id for the scheduler")
     mon.register_callback(_TOOL, mon.events.LINE, _on_line)
-    mon.set_events(_TOOL, mon.events.LINE)
+    mon.register_callback(_TOOL, mon.events.PY_START, _on_call)
+    mon.set_events(_TOOL, mon.events.LINE | mon.events.PY_START)
 
 
 def set_shared(names, extra_files=()):
